@@ -309,7 +309,11 @@ class SSHConfig:
 
         if value_str.lower() != 'none':
             if option in self._options:
-                cast(List[str], self._options[option]).append(value_str)
+                values = cast(List[str], self._options[option])
+
+                # Like OpenSSH, avoid registering duplicates
+                if value_str not in values:
+                    values.append(value_str)
             else:
                 self._options[option] = [value_str]
         else:
